@@ -308,6 +308,44 @@ def lazy_instance_stores():
     return sorted(set(sites))
 
 
+# ---- (c3) consumers of the shared class-level tables: a value obtained from a table getter (get_xsd_attributes and friends) must only be READ
+TABLE_GETTERS = ('get_xsd_attributes', 'get_xsd_indicator', 'get_xsd_tree', 'get_children_container')
+MUTATORS = ('sort', 'reverse', 'append', 'extend', 'insert', 'remove', 'pop', 'clear', 'update', 'setdefault', 'popitem', '__setitem__', '__delitem__', 'add', 'discard')
+
+
+def shared_table_mutations():
+    """(file, function, first line, last line, what) for every in-place mutation of a value that a function obtained from a table getter"""
+    sites = []
+    for rel in lib_files():
+        t = parse(rel)
+        for fn in ast.walk(t):
+            if not isinstance(fn, ast.FunctionDef):
+                continue
+            if fn.name in TABLE_GETTERS:
+                continue                      # the getter fills its own table: class_level_stores() judges that
+            bound = set()
+            for n in ast.walk(fn):
+                if isinstance(n, ast.Assign) and isinstance(n.value, ast.Call) and isinstance(n.value.func, ast.Attribute) and n.value.func.attr in TABLE_GETTERS:
+                    for tg in n.targets:
+                        if isinstance(tg, ast.Name):
+                            bound.add(tg.id)
+
+            def is_table(x):
+                return (isinstance(x, ast.Name) and x.id in bound) or (isinstance(x, ast.Call) and isinstance(x.func, ast.Attribute) and x.func.attr in TABLE_GETTERS)
+            for n in ast.walk(fn):
+                what = None
+                if isinstance(n, ast.Call) and isinstance(n.func, ast.Attribute) and n.func.attr in MUTATORS and is_table(n.func.value):
+                    what = '.%s()' % n.func.attr
+                elif isinstance(n, (ast.Assign, ast.AugAssign, ast.Delete)):
+                    tgs = n.targets if isinstance(n, (ast.Assign, ast.Delete)) else [n.target]
+                    for tg in tgs:
+                        if isinstance(tg, ast.Subscript) and is_table(tg.value):
+                            what = 'item assignment / deletion'
+                if what:
+                    sites.append((rel, fn.name, fn.lineno, fn.end_lineno, what))
+    return sorted(set(sites))
+
+
 # ---- (c'') what a new element shares with the per-type container template
 def sharing_facts():
     facts = {}
@@ -896,6 +934,10 @@ def main():
     o.append('Inductive lazy_shape := LSingleStore | LLoopStore | LUnreferenced | LUnsafe.')
     o.append('Definition lazy_instance_stores : list (string * string * string * N * lazy_shape) := [' + ';\n '.join(
         '(%s, %s, %s, %d%%N, %s)' % (cq(f), cq(fn), cq(a), ln, 'L' + sh) for f, fn, _, _, a, ln, sh in lz) + '].')
+    stm = shared_table_mutations()
+    side['shared_table_mutations'] = stm
+    o.append('(* in-place mutations of a value obtained from a class-level table getter (file, function, what): none allowed *)')
+    o.append('Definition shared_table_mutations : list (string * string * string) := [' + '; '.join('(%s, %s, %s)' % (cq(f), cq(fn), cq(w)) for f, fn, _, _, w in stm) + '].')
     try:
         sf = sharing_facts()
         side['sharing'] = sf
